@@ -139,7 +139,9 @@ M.contract('contracts.C13_filter:implements_interval_interface',
            raises_only=())
 
 M.contract(P_INTERVALS + ':point', params=dict(x=Int), ghosts=dict(n=Int), returns=ANY_INTERVAL,
-           ensures={'exact': lambda x, n, result: iff(mem(result, n), n == x) and wf(result)}, raises_only=())
+           ensures={'exact': lambda x, n, result: iff(mem(result, n), n == x) and wf(result),
+                    'inversion-covers-the-complement': lambda x, n, result:
+                    wf(result.inversion) and implies(n != x, mem(result.inversion, n))}, raises_only=())
 
 M.contract(P_INTERVALS + ':unlimited_with_finite_inversion',
            params=dict(finite_negation=ANY_INTERVAL), ghosts=dict(n=Int), returns=ANY_INTERVAL,
@@ -495,3 +497,333 @@ M.contract(P_MI + ':interval_of',
 
 M.contract(P_MI + ':no_adaption', params=dict(x=ANY_INTERVAL), inline=True,
            ensures={'identity': lambda x, result: result is x}, raises_only=())
+
+# ------------------------------------------------------------------------------ accept() dispatchers
+# Close the induction: for every matcher class the code knows, accept(visitor) yields what the
+# induction hypothesis `_accept` assumes of an opaque matcher.
+
+from exactly_lib.impls.types.matcher.impls import constant as constant_matcher
+from exactly_lib.impls.types.matcher.impls import comparison_matcher
+from exactly_lib.impls.types.matcher import property_matcher
+from exactly_lib.impls.types.line_matcher import model_construction, line_nums_interval
+from exactly_lib.impls.types.line_matcher.impl import line_number
+from exactly_lib.type_val_prims.matcher.line_matcher import FIRST_LINE_NUMBER
+
+_D_base = D
+
+
+def D(m, n):  # noqa: F811  (extends the denotation to the constant matcher)
+    if (not is_opaque(m)) and isinstance(m, constant_matcher.MatcherWithConstantResult):
+        return m._result
+    return _D_base(m, n)
+
+
+def _visitor_sound(visitor, holds, result, n):
+    if isinstance(visitor, matcher_interval._IntervalComputer):
+        return sound(visitor._interval_adaption, holds, result, n)
+    return sound(visitor._matcher_evaluator.__self__._interval_adaption, not holds, result, n)
+
+
+VISITOR = Union(COMPUTER, NEG_EVALUATOR)
+
+_P_COMBI = 'exactly_lib.impls.types.matcher.impls.combinator_matchers'
+
+M.contract('exactly_lib.impls.types.matcher.impls.constant:MatcherWithConstantResult.accept',
+           params=dict(self=Inst(constant_matcher.MatcherWithConstantResult, _result=Bool), visitor=VISITOR),
+           ghosts=dict(n=Int), returns=ANY_INTERVAL,
+           ensures={'as-the-induction-hypothesis-assumes': lambda self, visitor, result, n:
+           _visitor_sound(visitor, D(self, n), result, n)}, raises_only=())
+
+M.contract(_P_COMBI + ':Negation.accept',
+           params=dict(self=Inst(combinator_matchers.Negation, _negated=MATCHER), visitor=VISITOR),
+           ghosts=dict(n=Int), returns=ANY_INTERVAL,
+           ensures={'as-the-induction-hypothesis-assumes': lambda self, visitor, result, n:
+           _visitor_sound(visitor, D(self, n), result, n)}, raises_only=())
+
+M.contract(_P_COMBI + ':Conjunction.accept',
+           params=dict(self=Inst(combinator_matchers.Conjunction, _operands=OPERANDS), visitor=VISITOR),
+           ghosts=dict(n=Int), returns=ANY_INTERVAL,
+           ensures={'as-the-induction-hypothesis-assumes': lambda self, visitor, result, n:
+           _visitor_sound(visitor, D(self, n), result, n)}, raises_only=())
+
+M.contract(_P_COMBI + ':Disjunction.accept',
+           params=dict(self=Inst(combinator_matchers.Disjunction, _operands=OPERANDS), visitor=VISITOR),
+           ghosts=dict(n=Int), returns=ANY_INTERVAL,
+           ensures={'as-the-induction-hypothesis-assumes': lambda self, visitor, result, n:
+           _visitor_sound(visitor, D(self, n), result, n)}, raises_only=())
+
+M.contract('exactly_lib.type_val_prims.matcher.matcher_base_class:MatcherWTrace.accept',
+           params=dict(self=MATCHER, visitor=VISITOR),
+           ghosts=dict(n=Int), returns=ANY_INTERVAL,
+           ensures={'as-the-induction-hypothesis-assumes': lambda self, visitor, result, n:
+           _visitor_sound(visitor, D(self, n), result, n)}, raises_only=())
+
+# ------------------------------------------------------------------------------ leaves with an interval
+
+
+class RendererI(Interface):
+    methods = {'__call__': Method(returns=Any_)}
+
+
+_INT_COMPARISON = Inst(comparison_matcher.IntComparisonMatcher,
+                       _operator=OneOf(*comparators.ALL_OPERATORS), _rhs=Int,
+                       _rhs_syntax_element=Any_, _model_renderer=Iface(RendererI))
+
+M.contract('exactly_lib.impls.types.matcher.impls.comparison_matcher:ComparisonMatcher.matches_w_trace',
+           params=dict(self=_INT_COMPARISON, model=Int),
+           ensures={'value-is-the-comparison': lambda self, model, result:
+           result.value == bool(self._operator.operator_fun(model, self._rhs))}, raises_only=())
+
+M.contract('exactly_lib.impls.types.matcher.impls.comparison_matcher:IntComparisonMatcher.interval',
+           params=dict(self=_INT_COMPARISON), ghosts=dict(n=Int), returns=ANY_INTERVAL,
+           ensures={'sound-for-the-comparison': lambda self, result, n:
+           sound(matcher_interval.no_adaption, bool(self._operator.operator_fun(n, self._rhs)), result, n)},
+           raises_only=())
+
+
+@M.check('operators')
+def _operators(ctx):
+    import operator as op
+    expected = {'==': op.eq, '!=': op.ne, '<': op.lt, '<=': op.le, '>': op.gt, '>=': op.ge}
+    got = {o.name: o.operator_fun for o in comparators.ALL_OPERATORS}
+    ctx.obligation('ALL_OPERATORS are the six comparison operators with their Python meaning',
+                   got == expected, 'enumeration', detail={'names': sorted(got)})
+
+
+M.contract('exactly_lib.impls.types.line_matcher.impl.line_number:_get_int_interval_of_int_matcher',
+           params=dict(matcher=MATCHER), ghosts=dict(n=Int), returns=ANY_INTERVAL,
+           ensures={'sound': lambda matcher, result, n: sound(matcher_interval.no_adaption, D(matcher, n), result, n)},
+           raises_only=())
+
+M.contract('exactly_lib.impls.types.line_matcher.impl.line_number:_PropertyGetter.get_from',
+           params=dict(self=Inst(line_number._PropertyGetter), model=FixedList(Int, Str, as_tuple=True)),
+           inline=True, ensures={'the-line-number': lambda model, result: result == model[0]}, raises_only=())
+
+M.contract('exactly_lib.impls.types.matcher.property_matcher:PropertyMatcherWithIntInterval.interval',
+           params=dict(self=Inst(property_matcher.PropertyMatcherWithIntInterval,
+                                 _matcher=MATCHER,
+                                 _get_int_interval_of_prop_matcher=Const(line_number._get_int_interval_of_int_matcher),
+                                 _property_getter=Inst(line_number._PropertyGetter), _describer=Any_,
+                                 _structure=Any_)),
+           ghosts=dict(n=Int), returns=ANY_INTERVAL,
+           ensures={'line-num M has the interval of M': lambda self, result, n:
+           sound(matcher_interval.no_adaption, D(self._matcher, n), result, n)},
+           raises_only=())
+
+# ------------------------------------------------------------------------------ adaptation to line numbers
+
+_dom_base = dom
+
+
+def dom(adaption, n):  # noqa: F811
+    if adaption is model_construction.adapt_to_line_num_range:
+        return n >= FIRST_LINE_NUMBER
+    return _dom_base(adaption, n)
+
+
+M.contract('exactly_lib.impls.types.line_matcher.model_construction:_adapt_limit', params=dict(limit=Int), inline=True,
+           ensures={'max-with-first-line': lambda limit, result: result == (limit if limit >= 1 else 1)},
+           raises_only=())
+
+M.contract('exactly_lib.impls.types.line_matcher.model_construction:adapt_to_line_num_range',
+           params=dict(interval=ANY_INTERVAL), ghosts=dict(n=Int), returns=ANY_INTERVAL,
+           ensures={
+               'loses-no-line-number': lambda interval, result, n:
+               implies(n >= FIRST_LINE_NUMBER and mem(interval, n), mem(result, n)),
+               'adapted': lambda result: wf(result) and (result.is_empty or (
+                       (result.lower is None or result.lower > FIRST_LINE_NUMBER)
+                       and (result.upper is None or result.upper >= FIRST_LINE_NUMBER))),
+           }, raises_only=())
+
+
+def is_adapted(x):
+    return wf(x) and (x.is_empty or ((x.lower is None or x.lower > FIRST_LINE_NUMBER)
+                                     and (x.upper is None or x.upper >= FIRST_LINE_NUMBER)))
+
+
+M.contract('exactly_lib.impls.types.line_matcher.line_nums_interval:interval_of_matcher',
+           params=dict(matcher=MATCHER), ghosts=dict(n=Int), returns=Iface(PlainIntervalI),
+           ensures={'covers-every-accepted-line-number': lambda matcher, result, n:
+           implies(n >= FIRST_LINE_NUMBER and D(matcher, n), mem(result, n))},
+           raises_only=())
+
+# ------------------------------------------------------------------------------ presenting the lines of the interval
+from pyvc.api import IterOf
+
+P_MC = 'exactly_lib.impls.types.line_matcher.model_construction'
+
+
+class IsLastI(Interface):
+    """predicate on line numbers: 'this is the last line number of the interval'"""
+    methods = {'__call__': Method(returns=Bool, pure=True)}
+
+
+def _correctly_numbered(yielded, X, s, k):
+    """the k-th item is line s+k (0-based) of the input with its 1-based number and its text without new-line"""
+    return yielded[k][0] == X[s + k] and yielded[k][1][0] == s + k + 1 and yielded[k][1][1] == X[s + k].rstrip('\n')
+
+
+_PAIR = FixedList(Str, FixedList(Int, Str, as_tuple=True), as_tuple=True)
+
+M.contract(P_MC + ':_line_of', params=dict(n=Int, full_line=Str), inline=True,
+           ensures={'pair': lambda n, full_line, result:
+           result[0] == full_line and result[1][0] == n and result[1][1] == full_line.rstrip('\n')},
+           raises_only=())
+
+def _skip(num_to_skip):
+    return num_to_skip if num_to_skip > 0 else 0
+
+
+M.contract(P_MC + ':_lines_interval',
+           params=dict(num_to_skip=Int, is_last_line_num=Iface(IsLastI), lines=IterOf(Str)),
+           yields=ListOf(_PAIR),
+           ensures={
+               'starts-after-the-skipped-lines-and-stays-inside-the-text': lambda num_to_skip, lines, yielded:
+               _skip(num_to_skip) + len(yielded) <= max(len(lines.xs), _skip(num_to_skip)),
+               'every-item-is-a-correctly-numbered-line-in-order': lambda num_to_skip, lines, yielded:
+               forall_range(0, len(yielded), lambda k: _correctly_numbered(yielded, lines.xs, _skip(num_to_skip), k)),
+               'nothing-after-the-last-line-number': lambda num_to_skip, is_last_line_num, yielded:
+               forall_range(0, len(yielded) - 1, lambda k: not is_last_line_num(_skip(num_to_skip) + k + 1)),
+               'no-line-of-the-window-is-lost': lambda num_to_skip, is_last_line_num, lines, yielded:
+               (_skip(num_to_skip) + len(yielded) == len(lines.xs))
+               or (len(lines.xs) <= _skip(num_to_skip) and len(yielded) == 0)
+               or (len(yielded) > 0 and is_last_line_num(_skip(num_to_skip) + len(yielded))),
+           }, raises_only=())
+
+M.loop(P_MC + ':_lines_interval', 0,
+       invariant=lambda _i, ln, num_to_skip, yielded: ln == _i and ln < num_to_skip and len(yielded) == 0,
+       modifies={'ln': Int, '_': 'local'})
+
+M.loop(P_MC + ':_lines_interval', 1,
+       invariant=lambda _i, _start, ln, num_to_skip, is_last_line_num, lines, yielded:
+       ln == _i and len(yielded) == _i - _start
+       and (_start == _skip(num_to_skip) or (_start == len(lines.xs) and _start < num_to_skip))
+       and forall_range(0, len(yielded), lambda k: _correctly_numbered(yielded, lines.xs, _skip(num_to_skip), k))
+       and forall_range(0, len(yielded), lambda k: not is_last_line_num(_skip(num_to_skip) + k + 1)),
+       modifies={'ln': Int, 'line': 'local', 'yielded': 'len'})
+
+from contracts.common import items_of
+
+M.contract(P_MC + ':original_and_model_iter_from_file_line_iter',
+           params=dict(lines=IterOf(Str)), returns=IterOf(_PAIR),
+           ensures={'every-line-with-its-number': lambda lines, result:
+           len(items_of(result)) == len(lines.xs)
+           and forall_range(0, len(lines.xs), lambda k: _correctly_numbered(items_of(result), lines.xs, 0, k))},
+           raises_only=())
+
+
+def _num_skipped(interval):
+    return 0 if (interval.is_empty or interval.lower is None) else _skip(interval.lower - 1)
+
+
+def _all_correctly_numbered(items, X, s):
+    return forall_range(0, len(items), lambda k: _correctly_numbered(items, X, s, k))
+
+
+def _presented_at(items, n, k):
+    return 0 <= k and k < len(items) and items[k][1][0] == n
+
+
+M.contract(P_MC + ':original_and_model_iter_from_file_line_iter__interval',
+           params=dict(interval=Iface(PlainIntervalI), lines=IterOf(Str)),
+           returns=IterOf(_PAIR),
+           ghosts=dict(n=Int),
+           ensures={
+               'stays-inside-the-text': lambda interval, lines, result:
+               _num_skipped(interval) + len(items_of(result)) <= max(len(lines.xs), _num_skipped(interval)),
+               'only-correctly-numbered-lines-in-order': lambda interval, lines, result:
+               _all_correctly_numbered(items_of(result), lines.xs, _num_skipped(interval)),
+               # witness: line n is the item at position n - 1 - (number of skipped lines)
+               'every-line-whose-number-is-in-the-interval-is-presented': lambda interval, lines, result, n:
+               (not (1 <= n and n <= len(lines.xs) and mem(interval, n)))
+               or _presented_at(items_of(result), n,
+                                n - 1 - (0 if interval.lower is None else _skip(interval.lower - 1))),
+           }, raises_only=())
+
+# ------------------------------------------------------------------------------ the filter transformer itself
+from exactly_lib.impls.types.string_transformer.impl.filter import line_matcher as filter_by_line_matcher
+
+P_FLM = 'exactly_lib.impls.types.string_transformer.impl.filter.line_matcher'
+
+
+class MatchingResultI(Interface):
+    attrs = {'value': Bool, 'trace': Any_}
+
+
+def _accepting_implies_D(self, model, result):
+    """D(n) is the projection on the line number of 'accepts (n, text)' (definition of the ghost D)"""
+    return implies(result.value, self.D(model[0]))
+
+
+def _matches_model(interp, self, args, kwargs):
+    from pyvc.api import call_opaque_method
+    r = call_opaque_method(interp, self, 'matches_w_trace', _MATCHES_PURE, args, kwargs)
+    return r
+
+
+_MATCHES_PURE = Method(returns=Iface(MatchingResultI), pure=True,
+                       ensures=lambda self, n, text, result: implies(result.value, self.D(n)))
+MatcherI.methods['matches_w_trace'] = _MATCHES_PURE
+
+
+def accepted(matcher, X, j):
+    """the matcher accepts line j (0-based) of the text: applied to (1-based number, text without new-line)"""
+    return matcher.matches_w_trace((j + 1, X[j].rstrip('\n'))).value
+
+
+_FILTER_CONTENTS = Inst(filter_by_line_matcher._ContentsViaAsLines,
+                        _line_matcher=MATCHER, _source=Any_, _file_name=Any_)
+
+M.contract(P_FLM + ':_ContentsViaAsLines._line_and_line_matcher_models',
+           params=dict(self=_FILTER_CONTENTS, lines=IterOf(Str)), returns=IterOf(_PAIR), ghosts=dict(n=Int),
+           ensures={
+               'items-are-consecutive-correctly-numbered-lines': lambda lines, result:
+               forall_range(0, len(items_of(result)), lambda k:
+               _numbered_from(items_of(result), lines.xs, k)),
+               'every-line-the-matcher-may-accept-is-presented': lambda self, lines, result, n:
+               (not (1 <= n and n <= len(lines.xs) and D(self._line_matcher, n)))
+               or (len(items_of(result)) > 0
+                   and _presented_at(items_of(result), n, n - items_of(result)[0][1][0])),
+           }, raises_only=())
+
+
+def _numbered_from(items, X, k):
+    """item k is the line numbered first+k, where first is the number of item 0"""
+    return 1 <= items[0][1][0] and items[0][1][0] + k <= len(X) \
+        and items[k][1][0] == items[0][1][0] + k \
+        and items[k][0] == X[items[k][1][0] - 1] \
+        and items[k][1][1] == X[items[k][1][0] - 1].rstrip('\n')
+
+
+M.contract(P_FLM + ':_ContentsViaAsLines._transform_lines',
+           params=dict(self=_FILTER_CONTENTS, lines=IterOf(Str)), returns=IterOf(Str), ghosts=dict(n=Int),
+           ensures={
+               # THE property: the output is exactly the accepted lines, in order.
+               # src(k) is the (0-based) input line of the k-th output line; pos_of(j) the output position of line j.
+               'output-lines-are-accepted-input-lines-in-order': lambda self, lines, result:
+               forall_range(0, len(items_of(result)), lambda k:
+               0 <= _line_index(result, k) and _line_index(result, k) < len(lines.xs)
+               and items_of(result)[k] == lines.xs[_line_index(result, k)]
+               and accepted(self._line_matcher, lines.xs, _line_index(result, k)))
+               and forall_range(0, len(items_of(result)) - 1, lambda k:
+               _line_index(result, k) < _line_index(result, k + 1)),
+               # n is an arbitrary line number (ghost): the statement holds for every line
+               'no-accepted-line-is-lost': lambda self, lines, result, n:
+               (not (1 <= n and n <= len(lines.xs) and accepted(self._line_matcher, lines.xs, n - 1)))
+               or _kept(result, lines.xs, n - 1),
+           }, raises_only=())
+
+
+def _line_index(result, k):
+    """0-based index of the input line that the k-th output line comes from (ghost map of the filter)"""
+    out = items_of(result)
+    return out.source[out.src(k)][1][0] - 1
+
+
+def _kept(result, X, j):
+    """input line j is in the output: at position pos_of(its index among the presented lines)"""
+    out = items_of(result)
+    presented = out.source
+    i = j + 1 - presented[0][1][0]
+    return len(presented) > 0 and 0 <= i and i < len(presented) \
+        and 0 <= out.pos_of(i) and out.pos_of(i) < len(out) and out.src(out.pos_of(i)) == i
